@@ -298,7 +298,7 @@ def run_harness(stream, cases, workdir, jobs=NPROC, timeout=900, binary=None, ex
                     for line in q.stdout.decode(errors="replace").splitlines():
                         parts = line.split("\t")
                         if len(parts) >= 2 and parts[0] == cid: got = parts[1:]
-                    if got is not None and q.returncode == 0: out[cid] = got
+                    if got is not None: out[cid] = got
                     else:
                         err = q.stderr.decode(errors="replace").strip().splitlines()
                         out[cid] = ["crash:%d %s" % (q.returncode, (err[-1] if err else "")[:160])]
